@@ -514,6 +514,72 @@ func c02Work(w *h.W) {
 	}
 	c02RecipeWork(w)
 	c02AtomWork(w)
+	c02OccursHistories(w)
+}
+
+// ---- occurs check across choice points: what a failed branch bound (or looked at) is not observable in the next ----
+
+func c02OccursHistories(w *h.W) {
+	builds := []string{
+		"X0 = f(Z), Y = k(X0)", "X0 = f(Z), Y = X0", "X0 = [Z], Y = k(X0, X0)", "X0 = f(Z), X1 = g(X0), Y = k(X1)", "Y = k(f(Z))",
+		"X0 = f(Z, Q), Y = k(X0), Q = b",
+	}
+	firsts := []string{ // what the first branch does before it fails
+		"Z = a, unify_with_occurs_check(W, g(Y))", "Z = a, unify_with_occurs_check(Y, Y)", "Z = a, unify_with_occurs_check(k(V), Y), nonvar(V)",
+		"Z = a, W = g(Y), unify_with_occurs_check(W, W2)", "unify_with_occurs_check(W, g(Y))", "Z = g(c), unify_with_occurs_check(Y, R), nonvar(R)",
+	}
+	seconds := []string{"unify_with_occurs_check(Z, h(Y))", "unify_with_occurs_check(Z, Y)", "unify_with_occurs_check(h(Y), Z)", "unify_with_occurs_check(Z, h(Z2)), Z2 = Y", "unify_with_occurs_check(f(Z, Y), f(h(Y), Y))"}
+	choices := []string{"clauses", "between", "member", "disjunction"}
+	for bi, b := range builds {
+		for pad := 0; pad <= w.Pick(5, 9); pad++ {
+			if !w.Mine() {
+				continue
+			}
+			var pads, pvars []string
+			for i := 0; i < pad; i++ {
+				pads = append(pads, fmt.Sprintf("P%d = pad(%d)", i, i))
+				pvars = append(pvars, fmt.Sprintf("P%d", i))
+			}
+			// the first goal mentions the variables in a chosen order, which fixes the order of their numbers and
+			// thereby where their bindings sit in the environment's tree: the padding between X0 and Z, after both,
+			// before both
+			order := [][]string{append(append([]string{"X0"}, pvars...), "Z"), append(append([]string{"Z"}, pvars...), "X0"), append(append([]string{}, pvars...), "X0", "Z"), append([]string{"X0", "Z"}, pvars...)}[(bi+pad)%4]
+			padding := "_ = t(" + strings.Join(order, ", ") + "), "
+			if pad > 0 {
+				padding += strings.Join(pads, ", ") + ", "
+			}
+			pc := &h.ProgCase{Budget: 4000}
+			var cls []T
+			for fi, f := range firsts {
+				for si, s := range seconds {
+					name := fmt.Sprintf("alt_%d_%d", fi, si)
+					cls = append(cls, rd(name+"(Z, Y) :- "+f+", fail"), rd(name+"(Z, Y) :- "+s))
+				}
+			}
+			pc.Steps = append(pc.Steps, h.Consult(cls...))
+			for fi, f := range firsts {
+				for si, s := range seconds {
+					for _, ch := range choices {
+						var q string
+						switch ch {
+						case "clauses":
+							q = fmt.Sprintf("%s%s, alt_%d_%d(Z, Y)", padding, b, fi, si)
+						case "between":
+							q = fmt.Sprintf("%s%s, between(1, 2, I), (I =:= 1 -> %s, fail ; %s)", padding, b, f, s)
+						case "member":
+							q = fmt.Sprintf("%s%s, member(I, [1, 2]), (I =:= 1 -> %s, fail ; %s)", padding, b, f, s)
+						default:
+							q = fmt.Sprintf("%s%s, (%s, fail ; %s)", padding, b, f, s)
+						}
+						st := h.Query(rd(q), 3)
+						st.Vars = []string{"Z"}
+						pc.Steps = append(pc.Steps, st)
+					}
+				}
+			}
+			runProgCase(w, "occurs-histories", pc, bi+pad)
+		}
+	}
 }
 
 // ---- atom routes: one atom reached through every way the system offers to make an atom -----------
@@ -647,7 +713,7 @@ func c02Replay(b []byte) (string, string, bool) {
 func init() {
 	h.Register(&h.Check{
 		ID: "C02",
-		Rule: "(a) all ordered pairs of terms of depth <= 1 over {a,(b),1,(1.0),X,Y,(Z),[],f/1,g/2,'.'/2} and all (depth-2 term, depth<=1 term) pairs: =/2 both ways, == afterwards, bindings after failure (else-branch, \\+, \\=, next clause), unify_with_occurs_check/2 both ways, subsumes_term/2, copy_term/2, clause-head unification; pairs subject to occurs check (conservative detector) are skipped for =/2 only; (b) all pairs of abstract lists of length <= L over {a,b,97,X} x all pairs of 16 construction recipes (bracket, nested [H|T], partial list bound later/earlier, './2 compound, atom_chars, atom_codes, double-quoted literal, append/3 closed and open, =../2, findall/3, length/2 then bind); (d) atom routes: every atom of one or two characters over one representative of each Unicode general category and the boundary code points (0, 127/128, 255/256, surrogate neighbours, U+FFFD, U+FFFE/FFFF, U+10000, U+10FFFF), reached through every pair of 9 routes (atom_codes, atom_chars, char_code per character, atom_concat joined and split, sub_atom, element of atom_chars, char_code, functor name): the two results are identical (==), unify, compare '=' and have the same length; (c) binding tree: every insertion order of n <= N variables (atoms and variable chains), every earlier environment version re-checked after every insertion. Non-trivial = decided; distinct = case text.",
+		Rule: "(a) all ordered pairs of terms of depth <= 1 over {a,(b),1,(1.0),X,Y,(Z),[],f/1,g/2,'.'/2} and all (depth-2 term, depth<=1 term) pairs: =/2 both ways, == afterwards, bindings after failure (else-branch, \\+, \\=, next clause), unify_with_occurs_check/2 both ways, subsumes_term/2, copy_term/2, clause-head unification; pairs subject to occurs check (conservative detector) are skipped for =/2 only; (b) all pairs of abstract lists of length <= L over {a,b,97,X} x all pairs of 16 construction recipes (bracket, nested [H|T], partial list bound later/earlier, './2 compound, atom_chars, atom_codes, double-quoted literal, append/3 closed and open, =../2, findall/3, length/2 then bind); (d) atom routes: every atom of one or two characters over one representative of each Unicode general category and the boundary code points (0, 127/128, 255/256, surrogate neighbours, U+FFFD, U+FFFE/FFFF, U+10000, U+10FFFF), reached through every pair of 9 routes (atom_codes, atom_chars, char_code per character, atom_concat joined and split, sub_atom, element of atom_chars, char_code, functor name): the two results are identical (==), unify, compare '=' and have the same length; (e) occurs check across choice points: 6 constructions of a term that holds an unbound variable behind 0..5 (9) further bindings x 6 first branches (bind the variable, walk the term with an occurs-check unification, fail) x 5 occurs-check unifications in the second branch x 4 kinds of choice point (clauses, between/3, member/2, disjunction); (c) binding tree: every insertion order of n <= N variables (atoms and variable chains), every earlier environment version re-checked after every insertion. Non-trivial = decided; distinct = case text.",
 		Explanation: "state = a pair of terms (or an environment version); transition = one unification attempt on the real interpreter (or one Env.Unify on the real persistent tree) compared with the reference Robinson unifier / a plain Go map; the answer substitution is compared up to variable renaming, which makes it a most general unifier iff the reference's is",
 		Assumptions: []string{"reference: ref/unify (Robinson with trail, occurs check optional) and the conservative STO detector", "engine.Variable, engine.NewEnv, Env.Unify and Env.Resolve are exported API and are used directly for the binding-tree sub-check"},
 		Work:        c02Work,
